@@ -1,0 +1,27 @@
+//go:build verif
+// +build verif
+
+package hc
+
+import (
+	"time"
+
+	"github.com/samaritan-proxy/samaritan/pb/config/hc"
+)
+
+// VerifReset reconfigures the thresholds of a monitor built by VerifNewMonitor through
+// ResetHealthCheck. The monitor's loop is not running, so the notification is taken here.
+func (m *Monitor) VerifReset(fall, rise uint32) error {
+	err := m.ResetHealthCheck(&hc.HealthCheck{
+		Interval:      time.Hour,
+		Timeout:       time.Second,
+		FallThreshold: fall,
+		RiseThreshold: rise,
+		Checker:       &hc.HealthCheck_TcpChecker{TcpChecker: &hc.TCPChecker{}},
+	})
+	select {
+	case <-m.strategyUpdateCh:
+	default:
+	}
+	return err
+}
